@@ -86,6 +86,25 @@ def classify(inv):
     return causes, faults_fired
 
 
+def cleanup_checkpoint_met_replayed_bundle(inv, failure):
+    """True when the last device failure before the failing call's end struck while the engine was executing cached
+    messages again (after a rewind) and the event bundle open at that moment had been opened by that replay."""
+    msgs = [e for e in inv.events if e.kind == "msg" and e.seq < failure.end.seq]
+    flt = [e for e in inv.events if e.seq < failure.end.seq and ((e.kind == "dev" and e.d.get("fault")) or (e.kind == "status" and not e.d["ok"]))]
+    if not flt or not msgs:
+        return False
+    f = flt[-1]
+    before = [m for m in msgs if m.seq < f.seq]
+    seen = set()
+    replayed = set()
+    for m in before:
+        if m.d["mid"] in seen:
+            replayed.add(m.seq)
+        seen.add(m.d["mid"])
+    bundle = [m for m in before if m.d["cmd"] in ("create", "save", "drop")]
+    return bool(bundle) and bundle[-1].d["cmd"] == "create" and bundle[-1].seq in replayed
+
+
 ALLOWED_FAILURES = ("Injected", "FailedStatus", "PlanError", "CallbackError")
 
 KNOWN_PREDICATES = {
@@ -114,6 +133,12 @@ def check(res):
         # ---- what was raised
         if failure is not None:
             exc = failure.exc or ""
+            if exc == "IllegalMessageSequence" and faults and "Cannot 'checkpoint' after 'create'" in failure.end.d["text"] and cleanup_checkpoint_met_replayed_bundle(inv, failure):
+                # the plan's own doing: its clean-up contains a checkpoint, and the device failure it is cleaning up after
+                # struck a message the engine was executing again after a rewind, inside an event bundle that the replay
+                # had opened (the plan, whose own position is past that bundle, cannot know and cannot drop it)
+                res.notes["cleanup_checkpoint_met_replayed_bundle"] = res.notes.get("cleanup_checkpoint_met_replayed_bundle", 0) + 1
+                continue
             if not exc.startswith(ALLOWED_FAILURES):
                 out.append(
                     V(
